@@ -72,7 +72,10 @@ def run_one(sid, tier, seeds):
             c = sh([PY, os.path.join(ROOT, "check.py"), prop, "--tier", tier], ROOT,
                    {"VERIF_REPO": scratch, "VERIF_SEED": str(seed), "VERIF_NO_SHRINK": "1"})
             fails = [l for l in c.stdout.splitlines() if l.startswith("FAIL")]
-            verdicts.append({"seed": seed, "exit": c.returncode, "first": fails[0][:220] if fails else c.stdout.strip()[-160:], "wall_s": round(time.time() - t0, 1)})
+            import re
+            hits = sum(int(m.group(1)) for m in (re.search(r"\(x(\d+)\)", l) for l in fails) if m)
+            verdicts.append({"seed": seed, "exit": c.returncode, "first": fails[0][:220] if fails else c.stdout.strip()[-160:], "wall_s": round(time.time() - t0, 1),
+                             "signatures": len(fails), "hits": hits})
         out["runs"] = verdicts
         caught = [v for v in verdicts if v["exit"] == 1]
         out["status"] = "CAUGHT" if len(caught) == len(verdicts) else "CAUGHT-SOME-SEEDS" if caught else "MISSED"
@@ -97,13 +100,15 @@ def main():
         results = list(ex.map(lambda i: run_one(i, tier, seeds), ids))
     for r in results:
         first = (r.get("runs") or [{}])[0].get("first", r.get("detail", ""))
-        print("%-34s %-4s %-18s %s" % (r["id"], r["property"], r["status"], first[:170]))
+        run0 = (r.get("runs") or [{}])[0]
+        print("%-34s %-4s %-18s sigs=%-3s hits=%-5s %s" % (r["id"], r["property"], r["status"], run0.get("signatures", "-"), run0.get("hits", "-"), first[:150]))
     if "--report" in sys.argv:
         with open(os.path.join(ROOT, "seeded", "REPORT.md"), "w") as fp:
-            fp.write("# Seeded changes vs checks (%s tier, seeds %s)\n\n| seeded change | property | verdict | first failing clause |\n|---|---|---|---|\n" % (tier, seeds))
+            fp.write("# Seeded changes vs checks (%s tier, seeds %s)\n\n| seeded change | property | verdict | failing signatures / cases | first failing clause |\n|---|---|---|---|---|\n" % (tier, seeds))
             for r in results:
-                first = (r.get("runs") or [{}])[0].get("first", r.get("detail", ""))
-                fp.write("| %s | %s | %s | %s |\n" % (r["id"], r["property"], r["status"], first.replace("|", "\\|")[:200]))
+                run0 = (r.get("runs") or [{}])[0]
+                first = run0.get("first", r.get("detail", ""))
+                fp.write("| %s | %s | %s | %s / %s | %s |\n" % (r["id"], r["property"], r["status"], run0.get("signatures", "-"), run0.get("hits", "-"), first.replace("|", "\\|")[:200]))
     return 0 if all(r["status"] in ("CAUGHT", "SUPERSEDED") for r in results) else 1
 
 
